@@ -424,3 +424,55 @@ Print Assumptions connhandler_projections.
 Print Assumptions connhandler_projections_refuted.
 Print Assumptions connhandler_server_starvation.
 Print Assumptions connhandler_server_dial_error_stalls.
+
+(* ---- stated for the whole connection handler (package O): a disciplined run of the composite that ends with Ready reported
+   wrote exactly the frame of the last wantlist; and with whole handlers at BOTH ends the receiver's behaviour is handed exactly
+   that wantlist on the stream that carried it. *)
+From BS Require Import Bytes Varint Types FramedWrite Handler ServerHandler Framed Framed_proofs Streams Streams_proofs Handler_proofs ServerHandler_proofs ConnHandler ConnHandler_proofs ConnHandler_proofs2 Proto Prefix Incoming Qp ProtoCodec ProtoCodec_proofs Codec Frame Frame_proofs Codec_proofs Wire.
+From Coq Require Import ZArith Lia.
+Open Scope N_scope.
+
+Theorem C14_connhandler_ready_means_delivered :
+  forall (encode : message -> bytes) (block_size : blk -> N) (msg : Type)
+    (parse : bytes -> N -> parse_result msg) (proc : msg -> pm_result) (c : conn) 
+    (ops : list kop),
+  let fin := fst (krun_trace encode block_size parse proc (k_init c) ops) in
+  let outs := concat (snd (krun_trace encode block_size parse proc (k_init c) ops)) in
+  k_fatal fin = false ->
+  disciplined encode true c (client_proj encode block_size parse proc (k_init c) ops) = true ->
+  h_queue (k_client fin) = [] ->
+  last (reports (client_outs outs)) RpReady = RpReady ->
+  ksent_ws ops <> [] ->
+  exists (fr0 : list (N * message)) (id : N) (w : wantlist) (ws0 : list wantlist),
+    h_frames (k_client fin) = fr0 ++ [(id, wantlist_message w)] /\
+    ksent_ws ops = ws0 ++ [w] /\ wrote_on id (client_outs outs) = encode (wantlist_message w).
+Proof. exact (@ConnHandler_proofs2.C14_connhandler_ready_means_delivered). Qed.
+
+Theorem C14_connhandler_end_to_end :
+  forall (bsz bsz' : blk -> N) (enc' : message -> bytes) (Sz : N) (Hh : hash_fn) (chk chk' : bool)
+    (c c' : conn) (ops ops' : list kop) (k : N) (m : kin) (evs : list read_ev),
+  let krunS := krun_trace codec_encode bsz (qp_parse chk') (process_message Sz Hh) (k_init c) ops in
+  let krunR := krun_trace enc' bsz' (qp_parse chk) (process_message Sz Hh) (k_init c') ops' in
+  k_fatal (fst krunS) = false ->
+  disciplined codec_encode true c
+    (client_proj codec_encode bsz (qp_parse chk') (process_message Sz Hh) (k_init c) ops) = true ->
+  h_queue (k_client (fst krunS)) = [] ->
+  last (reports (client_outs (concat (snd krunS)))) RpReady = RpReady ->
+  ksent_ws ops <> [] ->
+  (forall w : wantlist,
+   In w (ksent_ws ops) -> wf_message (wantlist_message w) /\ size_ok write_message (wantlist_message w)) ->
+  exists (id : N) (w : wantlist) (ws0 : list wantlist),
+    ksent_ws ops = ws0 ++ [w] /\
+    wrote_on id (client_outs (concat (snd krunS))) = codec_encode (wantlist_message w) /\
+    (nth (N.to_nat k) (inbound_evs ops') [] = evs ++ [Eof] ->
+     live evs ->
+     ev_data evs = wrote_on id (client_outs (concat (snd krunS))) ->
+     nth_error (k_in (fst krunR)) (N.to_nat k) = Some m ->
+     stream_settled m = true ->
+     of_stream k (inbound_outs (concat (snd krunR))) =
+     (if announces w then [{| in_client := None; in_server := Some w |}] else []) /\
+     ss_status (ki_st m) = SfEnd).
+Proof. exact (@ConnHandler_proofs2.C14_connhandler_end_to_end). Qed.
+
+Print Assumptions C14_connhandler_ready_means_delivered.
+Print Assumptions C14_connhandler_end_to_end.
